@@ -266,6 +266,7 @@ def check(ctx):
         "samples": [{"program": jobs[0][0], "layout": jobs[0][2], "config": jobs[0][4][7]}, {"eof_config": eofc[9], "ending": "three"}],
         "tab_configurations": len(tabs), "single_deviations_pruned_by_read_set": bagg["pruned"], "single_deviation_runs": bagg["runs"],
     }
+    cov.update(bee.vacuity(bagg))
     return {"level": LEVEL, "coverage": cov,
             "assumptions": ["independent lexer masks comments and literals", "continuation lines of a directive belong to the directive"]}
 
